@@ -435,6 +435,29 @@ CHECKS["C25"] = dict(
     design_ref="§29",
 )
 
+CHECKS["C27"] = dict(
+    category="proof",
+    text=("Coq theorems over Model/Config.v (line-by-line model of nested_combine, the ini/toml loaders, load_config_at_path, iter_intermediate_paths, "
+          "load_config_up_to_path, FluffConfig.__init__/from_path, set_value and the inline-directive scanner, and a lint run with both functools caches "
+          "as explicit state): C27_combine_rightmost / C27_combine_raises_iff (what nested_combine shows at every path; exactly when it raises), "
+          "C27_combine_assoc(_prefix/_observed) (staged = flat), C27_precedence (for EVERY file system, HOME/XDG/cwd, root config and file the effective "
+          "config shows at every path the highest of defaults < user appdir < home < dirs between home and file < dirs from cwd to the file "
+          "(setup.cfg<tox.ini<pep8.ini<.sqlfluff<pyproject.toml) < extra file < overrides, then the file's own inline directives), C27_isolation / "
+          "C27_run_pointwise / C27_cache_transparent (a file's config depends only on the directories it is read from and its own text; the caches change "
+          "nothing), C27_dialect_required_after_inline / C27_path_and_string_pipelines_agree / C27_inline_only_dialect_honoured (after the repair of F34). "
+          "Tied to the code by exhaustive small-scope + seeded correspondence of every modelled function and by generated hierarchies "
+          "(ini/toml, nested/sibling/outside dirs, appdir/XDG, extra path, overrides, inline incl. malformed) checked per file through FluffConfig.from_path, "
+          "Linter.load_raw_file_and_config and real Linter.lint_paths histories in several orders with warm caches; independent monitors: 12-layer "
+          "precedence ladder oracle, file-alone == file-in-sequence (config and violations), LT05 lines predicted from the effective config, "
+          "lint_string/parse_string inline isolation, CLI vs API."),
+    note=("Trusted: Coq kernel, hand model Model/Config.v, scenario materialiser/value encoding, HOME/XDG/cwd redirection (in-process; "
+          "discovery.paths_from_path's import-time working_path default is re-bound per scenario). Not modelled: validate_config_dict, "
+          "_resolve_paths_in_config, symlinks, unknown dialect/templater names, derived core keys (monitored separately); TypeError/AttributeError/"
+          "OSError/SQLFluffUserError all map to ERuntime. Python-object aliasing is checked by refinement only. "
+          "C27_staged_equals_flat_unconditionally_refuted: a per-directory stage can hide nested_combine's ValueError (behavioural quirk). No axioms."),
+    technique="Coq proof over executable model + exhaustive/seeded correspondence + history refinement + independent oracles", design_ref="§31",
+)
+
 NOT_YET = "no check built yet in this round (planned: see DESIGN.md section for this property)"
 
 
